@@ -227,6 +227,13 @@ impl<'tcx> Cx<'tcx> {
                 }
                 let s = with_no_trimmed_paths!(format!("{}", c.const_));
                 items.push(("s", jstr(&s)));
+                // a reference to a `static` item: name the item
+                if let mir::Const::Val(ConstValue::Scalar(mir::interpret::Scalar::Ptr(ptr, _)), _) = c.const_ {
+                    let aid = ptr.provenance.alloc_id();
+                    if let Some(mir::interpret::GlobalAlloc::Static(sd)) = tcx.try_get_global_alloc(aid) {
+                        items.push(("static", jstr(&self.qname(sd))));
+                    }
+                }
                 if let mir::Const::Unevaluated(u, _) = c.const_ {
                     items.push(("uneval", jstr(&self.qname(u.def))));
                     if u.promoted.is_some() {
